@@ -109,6 +109,12 @@ def _get_python_path(env_var_name, default_path, target_dirname):
     return tuple(pathnames)
 
 
+# Target filenames that name a stream of the process rather than a file that
+# lives in a directory.
+_DEV_STREAM_RE = re.compile(
+    r"/dev/(?:stdin|stdout|stderr|null|tty|fd/[0-9]+)\Z")
+
+
 # TODO: stop memoizing here after using StatCache.  Actually just inline into
 # _ancestors_on_same_partition
 @memoize
@@ -304,7 +310,10 @@ class ImportDB:
 
         target_dirname = safe_parent
 
-        if target_filename.startswith("/dev"):
+        if _DEV_STREAM_RE.match(target_filename):
+            # /dev/stdin and the like are not files of a project directory:
+            # use the current directory.  (A plain prefix test would also
+            # catch /devel/..., /dev-tools/..., /dev/shm/...)
             try:
                 target_dirname = Filename(".")
             except UnsafeFilenameError:
